@@ -319,4 +319,18 @@ theorem C07_required_table (cls : String) (expected table : Str) (doc payload : 
   intro m hm
   simp [simpleFill, h1, h2, h3, h4, bind, Except.bind] at hm
 
+/-! ## non-vacuity -/
+
+def exDoc (ver ty : String) : PyVal :=
+  .dict [(c!"header", .dict [(c!"version", .str ver.toList), (c!"type", .str ty.toList)]),
+         (c!"payload", .dict [(c!"compose", .dict [(c!"id", .str c!"F-1-20200101.n.0"), (c!"date", .str c!"20200101"), (c!"type", .str c!"nightly"),
+                                                   (c!"respin", .int 0)]),
+                              (c!"rpms", .dict [])])]
+
+/-- a valid rpms document loads; the same document with another format's type is refused at 1.1 and 1.2 but not at 1.0;
+a compose date that is not 8 digits is refused (the `validate()` at the end of `Compose.deserialize`) -/
+example : isOk (rpmsLoads (exDoc "1.2" "productmd.rpms")) = true ∧ isOk (rpmsLoads (exDoc "1.1" "productmd.images")) = false
+    ∧ isOk (rpmsLoads (exDoc "1.2" "productmd.images")) = false ∧ isOk (rpmsLoads (exDoc "1.0" "productmd.images")) = true := by
+  decide +kernel
+
 end PM
